@@ -225,10 +225,29 @@ func RenderXML(d *XDialect) string {
 			fmt.Fprintf(&sb, "      <description>message %s.</description>\n", m.Name)
 		}
 		ext := false
-		for _, f := range m.Fields {
+		for fi, f := range m.Fields {
+			if noise(7) {
+				// a retired field / an old extensions marker kept as a comment, text that looks like markup inside CDATA: none of
+				// it is part of the definition
+				switch fi % 3 {
+				case 0:
+					sb.WriteString("      <!-- <field type=\"uint8_t\" name=\"retired\">no longer sent</field> -->\n")
+				case 1:
+					sb.WriteString("      <!-- <extensions/> used to be here -->\n")
+				case 2:
+					sb.WriteString("      <!-- <field type=\"uint32_t[4]\" name=\"old_a\">a</field>\n           <field type=\"float\" name=\"old_b\">b</field> -->\n")
+				}
+			}
 			if f.Ext && !ext {
 				ext = true
-				sb.WriteString("      <extensions/>\n")
+				switch {
+				case noise(4):
+					sb.WriteString("      <extensions></extensions>\n")
+				case noise(4):
+					sb.WriteString("      <extensions />\n")
+				default:
+					sb.WriteString("      <extensions/>\n")
+				}
 			}
 			t := f.Type
 			if f.ArrayLen > 0 {
